@@ -524,6 +524,12 @@ fn parts(tier: Tier) -> Vec<PartDef> {
             move |ctx| crate::cross::judged_by(crate::props::c18::run_for_cross(ctx), &|log, _| crate::cross::per_life(log, &|seg| { requests_follow_policy(seg)?; oracle(seg) })),
         ),
         PartDef::new(
+            "consent-after-all-handles-dropped",
+            Cfg::new("C05/consent-after-all-handles-dropped"),
+            json!({"driver": "the C11 handle-drop harness: all control handles dropped at every step 0..39 of a run that installs an update and is refused the reboot once, then two more iterations", "oracle": "this property's consent oracle (no reboot without a yes)"}),
+            move |ctx| crate::cross::judged_by(crate::props::c11::run_handles_dropped(ctx), &|log, _| { requests_follow_policy(log)?; oracle(log) }),
+        ),
+        PartDef::new(
             "invalid-app-sets",
             Cfg::new("C05/invalid-app-sets"),
             json!({"apps": "1..3", "invalid_position": "each", "invalid_kind": ["empty id", "version 0", "0.0", "0.0.0.0"], "exploration": "full product"}),
